@@ -82,9 +82,18 @@ type Setup struct {
 	Key   []byte `json:"key,omitempty"`
 	PreAB []Data `json:"pre_ab,omitempty"`
 	PreBA []Data `json:"pre_ba,omitempty"`
+	// relay: what the other side is handed instead of the sent cleartext frames
+	SeenAB []SeenFrame `json:"seen_ab,omitempty"`
+	SeenBA []SeenFrame `json:"seen_ba,omitempty"`
 	// blobs: counters / first-frame flags to start from (IVs are drawn at execution)
 	CtrAB, CtrBA uint32 `json:",omitempty"`
 	FinAB, FinBA bool   `json:",omitempty"` // first protected frame already exchanged in that direction
+}
+
+// SeenFrame is a cleartext frame as delivered by an editing relay.
+type SeenFrame struct {
+	Flag int  `json:"flag"`
+	D    Data `json:"d"`
 }
 
 type Case struct {
@@ -250,6 +259,86 @@ func Exec(c *Case) (obs *Obs, term string) {
 			pb = append(pb, d.Term())
 		}
 		setupTerm = fmt.Sprintf("(SKeyed %s %s %s %s %s)", core.Hex(c.Setup.Key), core.Hex(obs.IVA), core.Hex(obs.IVB), core.List(pa), core.List(pb))
+	case "relay":
+		w.a, w.b = stream.NewStream(w.ca), stream.NewStream(w.cb)
+		w.dirAB, w.dirBA = NewDir(c.Setup.Key), NewDir(c.Setup.Key)
+		// the reference codec follows what each SENDER put on the wire for its own digest and what
+		// each RECEIVER was handed for the peer's: after an edit they differ, and a frame sealed by A
+		// is then (correctly) not openable with B's view. dirAB is used to open A's frames: it must
+		// use A's view (A sent sentAB, A received seenBA).
+		leg := func(s, r *stream.Stream, out *Wire, sent []Data, seen []SeenFrame, sndDir, rcvDir *Dir) error {
+			for _, d := range sent {
+				if err := s.SendMessage(bg, d.Bytes()); err != nil {
+					return err
+				}
+			}
+			fr, _ := ParseFrames(out.Pending())
+			for _, f := range fr {
+				b := f.Bytes()
+				sndDir.SentClear = append(sndDir.SentClear, b...)
+				sndDir.SentAny = true
+			}
+			var edited []byte
+			for _, sf := range seen {
+				d := sf.D.Bytes()
+				f := RawFrame{Flag: byte(sf.Flag), Len: uint32(len(d)), Body: d}
+				edited = append(edited, f.Bytes()...)
+			}
+			out.Replace(edited)
+			for range seen {
+				if _, _, err := r.ReceiveFrameWithEnd(bg); err != nil {
+					return err
+				}
+			}
+			return nil
+		}
+		// dirAB opens frames sealed by A: its AAD is (A sent) || (A received)
+		if err := leg(w.a, w.b, w.ab, c.Setup.PreAB, c.Setup.SeenAB, w.dirAB, w.dirBA); err != nil {
+			obs.SetupErr = err
+		}
+		if err := leg(w.b, w.a, w.ba, c.Setup.PreBA, c.Setup.SeenBA, w.dirBA, w.dirAB); err != nil {
+			obs.SetupErr = err
+		}
+		// what A received is what the relay handed it (seenBA); what B received is seenAB
+		for _, sf := range c.Setup.SeenBA {
+			d := sf.D.Bytes()
+			w.dirAB.RecvClear = append(w.dirAB.RecvClear, RawFrame{Flag: byte(sf.Flag), Len: uint32(len(d)), Body: d}.Bytes()...)
+			w.dirAB.RecvAny = true
+		}
+		for _, sf := range c.Setup.SeenAB {
+			d := sf.D.Bytes()
+			w.dirBA.RecvClear = append(w.dirBA.RecvClear, RawFrame{Flag: byte(sf.Flag), Len: uint32(len(d)), Body: d}.Bytes()...)
+			w.dirBA.RecvAny = true
+		}
+		if obs.SetupErr == nil {
+			if err := w.a.SetSymmetricKey(c.Setup.Key); err != nil {
+				obs.SetupErr = err
+			}
+			if err := w.b.SetSymmetricKey(c.Setup.Key); err != nil {
+				obs.SetupErr = err
+			}
+		}
+		w.keyed = true
+		{
+			sa, sb := w.a.VerifSnapshot(), w.b.VerifSnapshot()
+			obs.IVA, obs.IVB = sa.EncryptIV[:], sb.EncryptIV[:]
+			tl := func(ds []Data) string {
+				var xs []string
+				for _, d := range ds {
+					xs = append(xs, d.Term())
+				}
+				return core.List(xs)
+			}
+			sl := func(fs []SeenFrame) string {
+				var xs []string
+				for _, f := range fs {
+					xs = append(xs, core.Pair(fmt.Sprint(f.Flag), f.D.Term()))
+				}
+				return core.List(xs)
+			}
+			setupTerm = fmt.Sprintf("(SRelay %s %s %s %s %s %s %s)", core.Hex(c.Setup.Key), core.Hex(obs.IVA), core.Hex(obs.IVB),
+				tl(c.Setup.PreAB), sl(c.Setup.SeenAB), tl(c.Setup.PreBA), sl(c.Setup.SeenBA))
+		}
 	case "blobs":
 		ivAB, ivBA := rnd(16), rnd(16)
 		s := c.Setup
